@@ -83,3 +83,12 @@ Example ex_case_variants_rejected :
   labels_distinct ascii_low (map fst ex_case) = false
   /\ read_fasta ascii_low alpha_dna (write_fasta alpha_dna true 70 ex_case) = Err ParseErr.
 Proof. vm_compute. split; reflexivity. Qed.
+
+(* a 2 x 12 standard matrix over all twelve states (0-9, gap, missing), symbols listed in another order *)
+Definition ex_std : matrix := [([97], [0;1;2;3;4;5;6;7;8;9;10;11]); ([98;32;99], [11;10;9;8;7;6;5;4;3;2;1;0])].
+Definition ex_order : list text := [[45];[57];[56];[55];[54];[53];[52];[51];[50];[49];[48]].
+Example ex_standard_hyps :
+  std_dtype DtStandard = true /\ std_alphabet_ok alpha_standard = true
+  /\ same_set ex_order (fundamental_symbols [alpha_standard]) = true /\ texts_distinct ex_order = true
+  /\ forallb (fun r => forallb (valid_cell alpha_standard) (snd r)) ex_std = true /\ rectangular 12 ex_std = true.
+Proof. vm_compute. repeat split. Qed.
